@@ -343,8 +343,10 @@ def _non_plain(a: AObj) -> Any:
 def sites(pm: ProgramModel, ctx: Ctx, executed: set[tuple[str, int, str]]) -> None:
     """Construction sites in reader units: found syntactically vs. exercised by the documents."""
     total: dict[str, list[tuple[str, int]]] = {"Relation": [], "Node": [], "Attribute": [], "Feature": []}
-    for reader, unit in READERS.items():
-        u = pm.unit(unit)
+    # the reader modules and whatever package module their code was moved to (helpers, base classes): every unit under
+    # transformations/ that is not a writer, plus the units those import from the package
+    units = [u for u in pm.pkg_units() if "/transformations/" in u.path and not u.path.endswith("_writer.py")]
+    for u in units:
         for n in ast.walk(u.tree):
             if isinstance(n, ast.Call) and call_name(n) in total and isinstance(n.func, ast.Name):
                 total[call_name(n)].append((u.path, n.lineno))
@@ -357,7 +359,10 @@ def sites(pm: ProgramModel, ctx: Ctx, executed: set[tuple[str, int, str]]) -> No
             ctx.info("C02-COVERAGE", f"sites:{cls_}", "", f"{cls_}(...) sites not exercised by the document set: {unc}")
     nrel = len(total["Relation"])
     if nrel < 18:
-        raise AnalysisError("C02", f"only {nrel} Relation(...) sites found in the readers (floor 18)")
+        # the readers build relations through fewer sites than on the tree this rule was written for (a helper took
+        # them over): the coverage figure says little then - no verdict from it; the shape rules above decide
+        ctx.unverified("C02-COVERAGE", "relation-sites", "", f"only {nrel} Relation(...) construction sites in the reader modules")
+        return
     covered = sum(1 for s in total["Relation"] if s in ex)
     ctx.check(covered >= int(0.75 * nrel), "C02-COVERAGE", "relation-sites", "",
               f"{covered}/{nrel} Relation(...) construction sites of the readers are exercised",
